@@ -14,7 +14,7 @@
 (*   <<"CONSUMED", lines, "FAILS", n, ...>>                                *)
 (* is printed when every line has been consumed.                           *)
 (***************************************************************************)
-EXTENDS Rfc1951, DeflateParams, DeflateContract, Json, IOUtils
+EXTENDS Rfc1951, DeflateParams, DeflateContract, InflateContract, Json, IOUtils
 
 Rec == ndJsonDeserialize(IOEnv.TRACE)
 
@@ -25,13 +25,20 @@ VARIABLES
   ip,     \* line of the current input event (plaintext shared by several streams)
   cid,    \* line of the current case event
   dc,     \* compressor-side contract state
+  ds,     \* low-level decoder objects: id -> InflateContract!DInit-shaped record
+  ss,     \* streaming inflate objects: id -> SInit-shaped record
   nfail, nrules, seen
 
-vars == <<l, acc, cs, ip, cid, dc, nfail, nrules, seen>>
+vars == <<l, acc, cs, ip, cid, dc, ds, ss, nfail, nrules, seen>>
+
+Objs == 1..12
+DS0 == [o \in Objs |-> DInit]
+SS0 == [o \in Objs |-> SInit]
 
 NoAcc == [ph |-> "none"]
 
 Init == /\ l = 1 /\ acc = NoAcc /\ cs = 0 /\ ip = 0 /\ cid = 0 /\ dc = CInit
+        /\ ds = DS0 /\ ss = SS0
         /\ nfail = 0 /\ nrules = 0 /\ seen = {}
 
 E == Rec[l]
@@ -41,7 +48,8 @@ CaseId == IF cid = 0 THEN "none" ELSE Rec[cid].id
 
 \* plaintext of a stream event: its own `p`, or the case's input event
 PlainOf(i) == IF HasF(Rec[i], "p") THEN Rec[i].p ELSE Rec[ip].p
-PlenOf(i) == IF HasF(Rec[i], "plen") THEN Rec[i].plen ELSE Len(PlainOf(i))
+PlenOf(i) == IF HasF(Rec[i], "plen") THEN Rec[i].plen
+             ELSE IF Rec[i].mode = "produce" THEN 0 ELSE Len(PlainOf(i))
 CutsOf(r) == IF HasF(r, "cuts") THEN {r.cuts[i] : i \in 1..Len(r.cuts)} ELSE {}
 
 \* fails: sequence of failed rule names
@@ -56,30 +64,33 @@ Keep(vs) == UNCHANGED vs
 EvCase ==
   /\ Is("case")
   /\ cid' = l /\ l' = l + 1 /\ acc' = NoAcc /\ cs' = 0 /\ ip' = 0 /\ dc' = CInit
+  /\ ds' = DS0 /\ ss' = SS0
   /\ Keep(<<nfail, nrules, seen>>)
 
 EvInput ==
   /\ Is("input")
   /\ ip' = l /\ l' = l + 1
-  /\ Keep(<<acc, cs, cid, dc, nfail, nrules, seen>>)
+  /\ Keep(<<acc, cs, cid, dc, ds, ss, nfail, nrules, seen>>)
 
 \* a stream event: initialise the acceptor; the line is consumed when it terminates
 EvStream ==
   /\ Is("stream") /\ cs # l
   /\ cs' = l
-  /\ acc' = AccInit(E.zlib, E.mode = "produce", CutsOf(E), PlenOf(l))
-  /\ Keep(<<l, ip, cid, dc, nfail, nrules, seen>>)
+  /\ acc' = AccInit(E.zlib, E.mode = "produce", CutsOf(E), PlenOf(l),
+                      HasF(E, "ignore_adler") /\ E.ignore_adler,
+                      IF HasF(E, "cap") THEN E.cap ELSE 20000)
+  /\ Keep(<<l, ip, cid, dc, ds, ss, nfail, nrules, seen>>)
 
 AccRun ==
   /\ acc # NoAcc /\ ~Terminal(acc)
   /\ acc' = Step(acc, Rec[cs].z, PlainOf(cs))
   /\ seen' = seen \cup {acc'.lastwhat}
-  /\ Keep(<<l, cs, ip, cid, dc, nfail, nrules>>)
+  /\ Keep(<<l, cs, ip, cid, dc, ds, ss, nfail, nrules>>)
 
 EvStreamDone ==
   /\ l <= Len(Rec) /\ E.ev = "stream" /\ cs = l /\ Terminal(acc)
   /\ l' = l + 1
-  /\ Keep(<<acc, cs, ip, cid, dc, nfail, nrules, seen>>)
+  /\ Keep(<<acc, cs, ip, cid, dc, ds, ss, nfail, nrules, seen>>)
 
 -----------------------------------------------------------------------------
 (* compressor output judged against the configuration (C01 C02 C09 C10 C11 *)
@@ -130,7 +141,7 @@ EvCompressed ==
         /\ IF HasF(cfg, "flags") /\ cfg.flags # m.flags
              THEN PrintT(<<"DRIFT", "flags", CaseId, cfg.flags, m.flags>>) ELSE TRUE
   /\ l' = l + 1
-  /\ Keep(<<acc, cs, ip, cid, dc, seen>>)
+  /\ Keep(<<acc, cs, ip, cid, dc, ds, ss, seen>>)
 
 \* the crate's own decoder on the compressor's output (C01)
 EvRoundtrip ==
@@ -145,14 +156,14 @@ EvRoundtrip ==
                    d.adler = AdlerSeq(AdlerInit, SubSeq(p, 1, n)), "roundtrip_bytes")
      IN Report(fails, 3)
   /\ l' = l + 1
-  /\ Keep(<<acc, cs, ip, cid, dc, seen>>)
+  /\ Keep(<<acc, cs, ip, cid, dc, ds, ss, seen>>)
 
 \* a panic, hang or crash in the code under test is never allowed
 EvBad ==
   /\ l <= Len(Rec) /\ E.ev \in {"panic", "hang", "crash"} /\ (acc = NoAcc \/ Terminal(acc))
   /\ Report(<<E.ev \o "_in_" \o E.where>>, 1)
   /\ l' = l + 1
-  /\ Keep(<<acc, cs, ip, cid, dc, seen>>)
+  /\ Keep(<<acc, cs, ip, cid, dc, ds, ss, seen>>)
 
 -----------------------------------------------------------------------------
 (* low-level compress calls (C02, C12, C16)                                 *)
@@ -161,7 +172,7 @@ EvCompNew ==
   /\ Is("comp_new")
   /\ dc' = CInit
   /\ l' = l + 1
-  /\ Keep(<<acc, cs, ip, cid, nfail, nrules, seen>>)
+  /\ Keep(<<acc, cs, ip, cid, ds, ss, nfail, nrules, seen>>)
 
 Adl(c) == c.adler
 
@@ -178,7 +189,7 @@ EvComp ==
      IN /\ Report(fails, 6)
         /\ dc' = [CompNext(dc, e) EXCEPT !.adler = newad]
   /\ l' = l + 1
-  /\ Keep(<<acc, cs, ip, cid, seen>>)
+  /\ Keep(<<acc, cs, ip, cid, ds, ss, seen>>)
 
 \* a qualifying flush return: the stream event before it parsed the output so far
 EvFlushpoint ==
@@ -196,7 +207,7 @@ EvFlushpoint ==
                  "sync_flush_ends_with_empty_stored_block_on_byte_boundary")
      IN Report(fails, 2)
   /\ l' = l + 1
-  /\ Keep(<<acc, cs, ip, cid, dc, seen>>)
+  /\ Keep(<<acc, cs, ip, cid, dc, ds, ss, seen>>)
 
 -----------------------------------------------------------------------------
 (* deflate() wrapper calls (C14)                                            *)
@@ -206,7 +217,7 @@ EvDefl ==
   /\ Report(DeflRules(dc, E), 9)
   /\ dc' = DeflNext(dc, E)
   /\ l' = l + 1
-  /\ Keep(<<acc, cs, ip, cid, seen>>)
+  /\ Keep(<<acc, cs, ip, cid, ds, ss, seen>>)
 
 EvDeflEnd ==
   /\ Is("defl_end")
@@ -214,22 +225,174 @@ EvDeflEnd ==
          fails == If(~e.misuse => e.ended, "driver_loop_reaches_stream_end")
      IN Report(fails, 1)
   /\ l' = l + 1
-  /\ Keep(<<acc, cs, ip, cid, dc, seen>>)
+  /\ Keep(<<acc, cs, ip, cid, dc, ds, ss, seen>>)
+
+
+-----------------------------------------------------------------------------
+(* decoder side (C03 C04 C05 C06 C07 C08 C13)                               *)
+
+\* what the acceptor established about the current stream
+K == IF cs = 0 \/ acc = NoAcc
+       THEN [v |-> "unknown", why |-> "", plen |-> 0, endbyte |-> 0, prefix |-> FALSE]
+     ELSE [v |-> IF acc.ph \in {"done", "rej", "starved"} THEN acc.ph ELSE "unknown",
+           why |-> acc.why, plen |-> acc.out, endbyte |-> acc.endbyte,
+           prefix |-> acc.ph = "starved" /\ HasF(Rec[cs], "prefix") /\ Rec[cs].prefix]
+
+\* plaintext byte sequence the acceptor vouches for (Verify: given; Produce: produced)
+PlainK == IF acc.produce THEN acc.ob ELSE PlainOf(cs)
+
+\* do the `n` bytes `data` continue the plaintext after `have` bytes?
+OkData(have, n, data) ==
+  IF K.v # "done" THEN TRUE
+  ELSE /\ have + n <= K.plen
+       /\ Len(data) = n
+       /\ (n = 0 \/ data = SubSeq(PlainK, have + 1, have + n))
+
+EvDNew ==
+  /\ Is("dnew")
+  /\ ds' = [ds EXCEPT ![E.obj] = DInit]
+  /\ l' = l + 1
+  /\ Keep(<<acc, cs, ip, cid, dc, ss, nfail, nrules, seen>>)
+
+EvDec ==
+  /\ Is("dec")
+  /\ LET e == E
+         d == ds[e.obj]
+         fails == DecRules(d, e, K, OkData(d.cout, e.written, e.data))
+     IN /\ Report(fails, 16)
+        /\ ds' = [ds EXCEPT ![e.obj] = DecNext(d, e, AdlerSeq(d.dig, e.data))]
+  /\ l' = l + 1
+  /\ Keep(<<acc, cs, ip, cid, dc, ss, seen>>)
+
+\* the driver loop of the harness ended: a valid, completely supplied stream with enough
+\* output space must have finished (C03); drivers never spin without progress (C05/C08)
+EvDecEnd ==
+  /\ Is("dec_end")
+  /\ LET e == E
+         d == ds[e.obj]
+         fails ==
+              Iff("valid_stream_decodes_to_done", K.v = "done" /\ e.complete => d.done /\ ~d.failed)
+           \o Iff("driver_loop_makes_progress", ~e.spun)
+           \o Iff("invalid_stream_never_done", K.v \in {"rej", "starved"} /\ ~(K.why = "dist_before_start" /\ e.wrap) => ~d.done)
+     IN Report(fails, 3)
+  /\ l' = l + 1
+  /\ Keep(<<acc, cs, ip, cid, dc, ds, ss, seen>>)
+
+\* C05: a parameter error leaves the decoder state untouched (serialised state compared)
+EvStateSame ==
+  /\ Is("state_same")
+  /\ Report(Iff("bad_param_leaves_state_untouched", E.same), 1)
+  /\ l' = l + 1
+  /\ Keep(<<acc, cs, ip, cid, dc, ds, ss, seen>>)
+
+\* C07 / C18 / C19: two runs over the same stream must agree
+EvEquiv ==
+  /\ Is("equiv")
+  /\ LET a == ds[E.a]
+         b == ds[E.b]
+         cls(x) == IF x.done /\ ~x.failed THEN "done" ELSE IF x.failed THEN "failed" ELSE x.last
+         fails ==
+              Iff("equiv_same_output", a.cout = b.cout /\ a.dig = b.dig)
+           \o Iff("equiv_same_verdict", cls(a) = cls(b))
+           \o Iff("equiv_same_consumed", a.cin = b.cin)
+     IN Report(fails, 3)
+  /\ l' = l + 1
+  /\ Keep(<<acc, cs, ip, cid, dc, ds, ss, seen>>)
+
+\* one-shot vector functions (C03, C08)
+EvVec ==
+  /\ Is("vec")
+  /\ LET e == E
+         fits == e.limit < 0 \/ K.plen <= e.limit
+         fails ==
+              Iff("vec_never_exceeds_limit", e.limit >= 0 => e.len <= e.limit)
+           \o Iff("vec_valid_stream_within_limit_succeeds",
+                  K.v = "done" /\ fits => e.status = "Ok" /\ e.len = K.plen /\ e.data = SubSeq(PlainK, 1, K.plen))
+           \o Iff("vec_over_limit_fails_with_decoded_prefix",
+                  K.v = "done" /\ ~fits =>
+                     e.status = "HasMoreOutput" /\ e.len = e.limit /\ e.data = SubSeq(PlainK, 1, e.limit))
+           \o Iff("vec_invalid_stream_not_ok", K.v \in {"rej", "starved"} => e.status # "Ok")
+     IN Report(fails, 4)
+  /\ l' = l + 1
+  /\ Keep(<<acc, cs, ip, cid, dc, ds, ss, seen>>)
+
+\* decompress_slice_iter_to_slice (C03)
+EvSliceIter ==
+  /\ Is("sliceiter")
+  /\ LET e == E
+         room == e.out_len >= K.plen + (IF e.nslices > 1 THEN 1 ELSE 0)
+         fails ==
+              Iff("sliceiter_valid_stream_decodes",
+                  K.v = "done" /\ room /\ e.whole =>
+                     e.status = "Ok" /\ e.n = K.plen /\ e.data = SubSeq(PlainK, 1, K.plen))
+           \o Iff("sliceiter_invalid_stream_not_ok", K.v \in {"rej", "starved"} => e.status # "Ok")
+           \o Iff("sliceiter_count_within_buffer", e.status = "Ok" => e.n <= e.out_len)
+     IN Report(fails, 3)
+  /\ l' = l + 1
+  /\ Keep(<<acc, cs, ip, cid, dc, ds, ss, seen>>)
+
+\* streaming inflate wrapper (C13)
+EvInfNew ==
+  /\ Is("inf_new")
+  /\ ss' = [ss EXCEPT ![E.obj] = SInit]
+  /\ l' = l + 1
+  /\ Keep(<<acc, cs, ip, cid, dc, ds, nfail, nrules, seen>>)
+
+EvInf ==
+  /\ Is("inf")
+  /\ LET e == E
+         s == ss[e.obj]
+         fails == InfRules(s, e, K, OkData(s.tout, e.written, e.data))
+     IN /\ Report(fails, 13)
+        /\ ss' = [ss EXCEPT ![e.obj] = InfNext(s, e, AdlerSeq(s.dig, e.data))]
+  /\ l' = l + 1
+  /\ Keep(<<acc, cs, ip, cid, dc, ds, seen>>)
+
+EvInfEnd ==
+  /\ Is("inf_end")
+  /\ LET e == E
+         s == ss[e.obj]
+         fails ==
+              Iff("inflate_driver_loop_terminates_with_plaintext",
+                  K.v = "done" /\ e.canonical => s.ended /\ s.tout = K.plen /\ s.tin = K.endbyte)
+           \o Iff("inflate_driver_loop_terminates", ~e.spun)
+           \o Iff("inflate_invalid_stream_ends_in_error",
+                  K.v \in {"rej", "starved"} /\ K.why # "dist_before_start" => ~s.ended)
+     IN Report(fails, 3)
+  /\ l' = l + 1
+  /\ Keep(<<acc, cs, ip, cid, dc, ds, ss, seen>>)
+
+EvEquivS ==
+  /\ Is("equiv_s")
+  /\ LET a == ss[E.a]
+         b == ss[E.b]
+         \* on an invalid stream the wrapper drops the output still pending in its window
+         \* when the error is reported, so only the verdict is schedule-independent there
+         fails ==
+              Iff("equiv_same_output", K.v = "done" => a.tout = b.tout /\ a.dig = b.dig)
+           \o Iff("equiv_same_verdict", a.ended = b.ended /\ a.dataerr = b.dataerr)
+           \o Iff("equiv_same_consumed", K.v = "done" => a.tin = b.tin)
+     IN Report(fails, 3)
+  /\ l' = l + 1
+  /\ Keep(<<acc, cs, ip, cid, dc, ds, ss, seen>>)
 
 -----------------------------------------------------------------------------
 Known == {"case", "input", "stream", "compressed", "roundtrip", "panic", "hang", "crash",
-          "comp_new", "comp", "flushpoint", "defl", "defl_end"}
+          "comp_new", "comp", "flushpoint", "defl", "defl_end",
+          "dnew", "dec", "dec_end", "equiv", "state_same", "vec", "sliceiter", "inf_new", "inf", "inf_end", "equiv_s"}
 
 \* an event the spec has no action for is itself a failure (never silently skipped)
 EvUnknown ==
   /\ l <= Len(Rec) /\ E.ev \notin Known /\ (acc = NoAcc \/ Terminal(acc))
   /\ Report(<<"unknown_event_" \o E.ev>>, 1)
   /\ l' = l + 1
-  /\ Keep(<<acc, cs, ip, cid, dc, seen>>)
+  /\ Keep(<<acc, cs, ip, cid, dc, ds, ss, seen>>)
 
 Next == \/ EvCase \/ EvInput \/ EvStream \/ AccRun \/ EvStreamDone
         \/ EvCompressed \/ EvRoundtrip \/ EvBad
         \/ EvCompNew \/ EvComp \/ EvFlushpoint \/ EvDefl \/ EvDeflEnd
+        \/ EvDNew \/ EvDec \/ EvDecEnd \/ EvStateSame \/ EvEquiv \/ EvVec \/ EvSliceIter
+        \/ EvInfNew \/ EvInf \/ EvInfEnd \/ EvEquivS
         \/ EvUnknown
 
 Spec == Init /\ [][Next]_vars
